@@ -15,7 +15,11 @@ Judge(rec) ==
   LET o == rec.obs
       died == "died" \in DOMAIN o IN
   IF died THEN {"total"}
-  ELSE IF ~o.parsed THEN {}
+  ELSE IF ~o.parsed THEN
+         \* (what the specification's front end accepts, the code's front end accepts: parentheses are pure notation)
+         (LET lx == Lex(rec.ops, rec.src)
+              pr == IF lx.ok THEN Parse(rec.ops, lx.toks) ELSE [ok |-> FALSE, why |-> "lex"] IN
+          IF pr.ok THEN {"parsed"} ELSE {})
   ELSE (IF o.class # "ok" THEN {"total"} ELSE
         \* the tree that was desugared is the tree of THIS source (the specification's own lexer and parser)
         (LET lx == Lex(rec.ops, rec.src)
